@@ -86,6 +86,9 @@ def judge(c):
         return None
     if not a.get("unique"):
         return {"what": "a generated identifier is declared more than once", "observed": r["query"] + r["class_decl"]}
+    sx = getattr(c, "gxx_syntax", None)
+    if sx is not None and not sx.get("compiled"):
+        return {"what": "the generated C++ does not compile against a mock of the data model exactly as the query declares it", "observed": {"errors": sx.get("errors"), "body": r["query"]}}
     for g in (getattr(c, "gxx_exec", None) or []):
         if g and str(g.get("fault", "")).startswith("does-not-compile"):
             return {"what": "the generated C++ does not compile against a mock of the data model exactly as the query declares it", "observed": {"errors": g.get("errors"), "body": r["query"]}}
@@ -107,5 +110,5 @@ def after(ctx, c):
             ctx.count("WellFormed:rejected")
 
 
-_P = CompilerProp(ID, gen, judge, 180, 1500, with_query=True, after=after, use_gxx=True)
+_P = CompilerProp(ID, gen, judge, 180, 1500, with_query=True, after=after, use_gxx=True, gxx_also=lambda c: not (c.answer or {}).get("wf", True) or not (c.answer or {}).get("unique", True))
 run, search, replay = _P.run, _P.search, _P.replay
